@@ -218,6 +218,7 @@ class TokenMw(object):
     def process_response(self, req, resp, resource, req_succeeded):
         Y('mw.response')
         resp.set_header('X-Ctx', str(getattr(req.context, 'token', None)))
+        resp.append_header('X-Trace', '%s:%s' % (self.tag, req_succeeded))
 
 
 class YieldingJSON(falcon.media.JSONHandler):
@@ -237,8 +238,8 @@ class SteadyEcho(Echo):
             raise falcon.HTTPConflict(title='conflict', description=req.get_header('X-Token'))
 
 
-def build_steady():
-    app = falcon.App(middleware=[TokenMw('a'), TokenMw('b')])
+def build_steady(dependent=False):
+    app = falcon.App(middleware=[TokenMw('a'), TokenMw('b')], independent_middleware=not dependent)
     for t, who in ROUTES:
         app.add_route(t, SteadyEcho(who))
     h = YieldingJSON()
@@ -251,13 +252,14 @@ _STEADY_SERIAL = {}
 
 def run_steady(case):
     reqs = case['reqs']
-    app = build_steady()
+    dep = bool(case.get('dependent'))
+    app = build_steady(dep)
     wsgi_request(app, 0)  # warm up: router compiled, caches filled
     for i in reqs:
-        if i not in _STEADY_SERIAL:
-            a2 = build_steady()
+        if (i, dep) not in _STEADY_SERIAL:
+            a2 = build_steady(dep)
             wsgi_request(a2, 0)
-            _STEADY_SERIAL[i] = ('ok', wsgi_request(a2, i))
+            _STEADY_SERIAL[(i, dep)] = ('ok', wsgi_request(a2, i))
     fns = [lambda i=i: wsgi_request(app, i) for i in reqs]
     sched = Scheduler(fns, case['plan'])
     _CUR['sched'] = sched
@@ -267,7 +269,7 @@ def run_steady(case):
         _CUR['sched'] = None
     ctx = 'requests=%r plan=%r switches=%r' % ([REQS[i][0] for i in reqs], case['plan'], sched.switch_log[:10])
     for k, i in enumerate(reqs):
-        got, exp = results[k], _STEADY_SERIAL[i]
+        got, exp = results[k], _STEADY_SERIAL[(i, dep)]
         if got[0] == 'exc':
             raise Violation('request_failed', 'request %r raised %r; %s' % (REQS[i][0], got[1], ctx))
         if got != exp:
@@ -288,10 +290,11 @@ class SteadyEnum(Suite):
     def cases(self, tier):
         pairs = [(0, 1), (2, 5), (3, 6)] if tier == 'quick' else list(itertools.permutations(range(len(REQS)), 2))[:20]
         for a, b in pairs:
-            for k1 in range(0, 16):
-                yield {'reqs': [a, b], 'plan': [[0, k1]]}
-                for k2 in range(1, 16):
-                    yield {'reqs': [a, b], 'plan': [[0, k1], [1, k2]]}
+            for dep in (False, True):
+                for k1 in range(0, 16):
+                    yield {'reqs': [a, b], 'plan': [[0, k1]], 'dependent': dep}
+                    for k2 in range(1, 16):
+                        yield {'reqs': [a, b], 'plan': [[0, k1], [1, k2]], 'dependent': dep}
         for k1 in range(1, 14, 2):
             for k2 in range(1, 14, 2):
                 for k3 in range(1, 14, 3):
@@ -348,9 +351,27 @@ class AMw(object):
         if req.context.token != req.get_header('X-Token'):
             resp.set_header('X-Context-Corrupted', '1')
 
+    def __init__(self, tag):
+        self.tag = tag
+
     async def process_response(self, req, resp, resource, req_succeeded):
         await AY(req)
         resp.set_header('X-Ctx', str(getattr(req.context, 'token', None)))
+        resp.append_header('X-Trace', '%s:%s' % (self.tag, req_succeeded))
+
+
+class ARejectMw(object):
+    """Rejects one particular request in process_request (so that in dependent mode the components
+    stacked after it must not see process_response for that request)."""
+
+    async def process_request(self, req, resp):
+        await AY(req)
+        if req.get_header('X-Token') == 't7':
+            raise falcon.HTTPForbidden(title='no', description='t7')
+
+    async def process_response(self, req, resp, resource, req_succeeded):
+        await AY(req)
+        resp.append_header('X-Trace', 'reject:%s' % (req_succeeded,))
 
 
 class AEcho(object):
@@ -374,13 +395,13 @@ class AEcho(object):
 _ASGI_APP = {}
 
 
-def get_asgi_app():
-    app = _ASGI_APP.get('app')
+def get_asgi_app(dependent=False):
+    app = _ASGI_APP.get(dependent)
     if app is None:
-        app = falcon.asgi.App(middleware=[AMw(), AMw()])
+        app = falcon.asgi.App(middleware=[AMw('a'), ARejectMw(), AMw('b')], independent_middleware=not dependent)
         for t, who in ROUTES:
             app.add_route(t, AEcho(who))
-        _ASGI_APP['app'] = app
+        _ASGI_APP[dependent] = app
     return app
 
 
@@ -425,13 +446,14 @@ def run_asgi_tasks(case):
     reqs = case['reqs']
     word = case['word']
     chunks = case['chunks']
-    app = get_asgi_app()
+    dep = bool(case.get('dependent'))
+    app = get_asgi_app(dep)
 
     async def serial(i):
         return await asgi_one(app, i, 0, None, chunks)()
 
     for i in reqs:
-        key = (i, tuple(chunks))
+        key = (i, tuple(chunks), dep)
         if key not in _ASGI_SERIAL:
             _TURNS['t'] = None
             _ASGI_SERIAL[key] = asgi_driver.run(serial(i))
@@ -479,7 +501,7 @@ def run_asgi_tasks(case):
             if isinstance(exc, Violation):
                 raise exc
             raise Violation('request_failed', 'ASGI request %r raised %r; %s' % (REQS[i][0], exc, ctx))
-        exp = _ASGI_SERIAL[(i, tuple(chunks))]
+        exp = _ASGI_SERIAL[(i, tuple(chunks), dep)]
         if got != exp:
             raise Violation('response_differs', 'ASGI request %r got %r, alone it gets %r; %s' % (REQS[i][0], got, exp, ctx))
     return Info(switches['mid'], ['tasks:%d' % len(reqs), 'switches:%d' % min(switches['n'], 10)] + (['interleaved'] if switches['mid'] else []))
@@ -496,10 +518,10 @@ class AsgiEnum(Suite):
 
     def cases(self, tier):
         n = 7 if tier == 'quick' else 9
-        for pair in ([0, 1], [2, 5]):
+        for pair, dep in (([0, 1], False), ([2, 5], False), ([0, 7], True), ([7, 3], True)):
             for L in range(1, n + 1):
                 for w in itertools.product((0, 1), repeat=L):
-                    yield {'reqs': pair, 'word': list(w), 'chunks': [5]}
+                    yield {'reqs': pair, 'word': list(w), 'chunks': [5], 'dependent': dep}
         for L in range(1, (5 if tier == 'quick' else 7)):
             for w in itertools.product((0, 1, 2), repeat=L):
                 yield {'reqs': [0, 1, 3], 'word': list(w), 'chunks': [4, 9]}
@@ -516,10 +538,10 @@ class AsgiRandom(Suite):
     case_timeout = 120
 
     def strategy(self, tier):
-        return st.builds(lambda reqs, word, chunks: {'reqs': reqs, 'word': word, 'chunks': chunks},
+        return st.builds(lambda reqs, word, chunks, dep: {'reqs': reqs, 'word': word, 'chunks': chunks, 'dependent': dep},
                          st.lists(st.integers(0, len(REQS) - 1), min_size=2, max_size=3, unique=True),
                          st.lists(st.integers(0, 2), min_size=1, max_size=40),
-                         st.lists(st.integers(1, 12), min_size=1, max_size=3))
+                         st.lists(st.integers(1, 12), min_size=1, max_size=3), st.booleans())
 
     def run(self, case):
         return run_asgi_tasks(case)
